@@ -411,12 +411,16 @@ def run_shard(i, n, tier, seed, m):
                 m.case(c3, canon=[t1, v], nontrivial=True)
                 judge_pair(c3, m)
     if i == 0:
+        core.guarded(judge_rebinding)(m)
+    if i == 0:
         fixed = [("I(-a ** 2)", "I((-a) ** 2)"), ("I(2 ** a ** 2)", "I((2 ** a) ** 2)"), ("I(a - (b - 1))", "I(a - b - 1)"),
                  ("I((a + b) * c)", "I(a + b * c)"), ("r1(a, True)", "r1(a, 1)"), ("r1(a, 1)", "r1(a, 1.0)"),
                  ("r1(a, k=1)", "r1(a, k=2)"), ("r1(a, 'u')", "r1(a, \"u\")"), ("r1(a, k='x  y')", "r1(a, k='x y')"),
                  ("r1(a, k=b == c)", "r1(a, k=b != c)"), ("I(a / b / c)", "I(a / (b / c))"), ("r1(r2(a))", "r1(a)"),
                  ("I(-a ** -b)", "I((-a) ** -b)"), ("I(a ** -b ** c)", "I((a ** -b) ** c)"), ("I(+a)", "I(a)"),
                  ("I(- - a)", "I(a)"), ("r1(a, 9007199254740993)", "r1(a, 9007199254740992)"),
+                 ("r1(a, 1)", "r1(a, True)"), ("r1(a, 0)", "r1(a, False)"), ("r1(a, False)", "r1(a, 0)"), ("r1(a, 1.0)", "r1(a, 1)"),
+                 ("r1(a, k=0)", "r1(a, k=False)"), ("r1(a, k=None)", "r1(a, k=0)"), ("I(-2 ** a)", "I((-2) ** a)"), ("I(a * -3 ** 2)", "I(a * (-3) ** 2)"),
                  ("r1(a, k=18014398509481985)", "r1(a, k=18014398509481984)")]
         for t1, t2 in fixed:
             for t in (t1, t2):
@@ -427,6 +431,40 @@ def run_shard(i, n, tier, seed, m):
             c2 = {"pair": [t1, t2]}
             m.case(c2, canon=[t1, t2, "fixed"], nontrivial=True)
             judge_pair(c2, m)
+
+
+def judge_rebinding(m):
+    """Histories: the same callee text (plain, dotted, twice dotted) is bound to another object in the next
+    design; each design must evaluate ITS OWN binding, at build time and on new data."""
+    import types
+    import formulae
+
+    df = frame()
+    new = df.iloc[::-1].reset_index(drop=True)
+    mk = lambda c: types.SimpleNamespace(f=lambda v, c=c: np.asarray(v, dtype=float) * c,  # noqa: E731
+                                         inner=types.SimpleNamespace(f=lambda v, c=c: np.asarray(v, dtype=float) + c))
+    designs = []
+    for c in (2.0, 3.0, 5.0):
+        ns = {"tools": mk(c), "plain": (lambda v, c=c: np.asarray(v, dtype=float) - c)}
+        for text, fn in (("tools.f(a)", lambda d, c=c: d["a"].to_numpy() * c), ("tools.inner.f(b)", lambda d, c=c: d["b"].to_numpy() + c),
+                         ("plain(c)", lambda d, c=c: d["c"].to_numpy() - c)):
+            case = {"rebinding": [text, c]}
+            m.case(case, canon=["rebinding", text, c], nontrivial=True)
+            m.ev("value-equals-python-eval")
+            try:
+                dm = formulae.design_matrices("y ~ " + text, df, extra_namespace=ns)
+                got = np.asarray(dm.common[text], dtype=float).reshape(-1)
+                if not np.allclose(got, fn(df)):
+                    m.violation("value-equals-python-eval", f"{text} with its own binding (factor {c}) evaluates another object's function",
+                                case=case, key="rebinding:build")
+                designs.append((dm, text, fn, case))
+            except Exception as e:
+                m.violation("value-equals-python-eval", f"{text}: {type(e).__name__}: {e}", case=case, key="rebinding:raises")
+    for dm, text, fn, case in designs:  # earlier designs evaluated after later ones were built
+        m.ev("value-equals-python-eval")
+        got = np.asarray(dm.common.evaluate_new_data(new)[text], dtype=float).reshape(-1)
+        if not np.allclose(got, fn(new)):
+            m.violation("value-equals-python-eval", f"{text}: new data is evaluated with another design's binding", case=case, key="rebinding:newdata")
 
 
 def replay(rec, m):
